@@ -110,6 +110,7 @@ def one_scenario(run, seed, idx, mods, noisy):
     ds_tol = float(r.choice([0.002, 0.005, 0.01]))
     uniq = float(r.choice([0.5, 0.3, 0.7]))
     minpks = int(max(3, nper * float(r.uniform(0.25, 0.5))))
+    boundary = (not noisy) and idx % 4 == 3
     gvs = [hk @ UB.T for UB in UBs]
     gid = np.concatenate([np.full(nper, i) for i in range(ngr)])
     gv = np.concatenate(gvs)
@@ -133,7 +134,16 @@ def one_scenario(run, seed, idx, mods, noisy):
             gid = np.concatenate([gid, np.full(ns, -1)])
     perm = r.permutation(len(gv))
     gv, gid = np.ascontiguousarray(gv[perm]), gid[perm]
+    if boundary:
+        # "more than minpks" boundary: ask for exactly as many peaks as the best grain can give; nothing that indexes
+        # only that many may be reported (completeness is not claimed for this class)
+        counts = [count_indexed(np.linalg.inv(UB), gv, hkl_tol)[0] for UB in UBs]
+        minpks = int(max(counts)) - int(idx % 8 == 7)
+        ncls = "ideal-boundary-minpks"
+        run.count("boundary_minpks_scenarios")
     route = ["score_all_pairs", "score_all_pairs", "score_all_pairs", "index", "do_index"][idx % 5]
+    if boundary and route == "do_index":
+        route = "score_all_pairs"      # do_index chooses its own minpks
     desc = dict(index=idx, noisy=noisy, kind=kind, sym=sym, cell=cell, ngrains=ngr, peaks_per_grain=nper, npeaks=len(gv),
                 dsmax=dsmax, hkl_tol=hkl_tol, cosine_tol=cosine_tol, ds_tol=ds_tol, minpks=minpks, uniqueness=uniq,
                 noise_class=ncls, route=route)
@@ -181,7 +191,7 @@ def one_scenario(run, seed, idx, mods, noisy):
     if len(ix.scores) != len(ix.ubis):
         V(route + ":scores-length", "len(scores) != len(ubis)")
     # completeness on ideal data
-    if not noisy:
+    if not noisy and not boundary:
         matched = [[] for _ in UBs]
         for k, u in enumerate(ubis):
             for g, UB in enumerate(UBs):
@@ -218,3 +228,4 @@ def check(run, replay=None):
         one_scenario(run, run.seed, i, mods, True)
     run.require_counter("reported_ubis_judged", 20)
     run.require_counter("truth_grains_checked", 20)
+    run.require_counter("boundary_minpks_scenarios", 3)
